@@ -257,7 +257,8 @@ type fontRec struct {
 	Map     []int            `json:"map"`
 	Ng      int              `json:"ng"`
 	W1      int              `json:"w1"`
-	Csok    int              `json:"csok"` // CFF programs: the Top DICT CharStrings offset points at a well-formed INDEX (1), not (0), n/a (-1)
+	Csok    int              `json:"csok"`    // CFF programs: the Top DICT CharStrings offset points at a well-formed INDEX (1), not (0), n/a (-1)
+	Maxcode int              `json:"maxcode"` // highest code shown with this font in the document
 	emb     *font.SFNT
 	bad     bool
 	badText string
@@ -932,6 +933,11 @@ func decode(id int, s *Scenario, r *rendered) (trace []byte, nEvents int, ms []c
 	if len(shown) != len(r.laid) {
 		ms = append(ms, core.Mismatch{Signature: "shown-code-count-differs", Detail: fmt.Sprintf("%d codes shown in the content streams, %d glyphs laid out", len(shown), len(r.laid))})
 		return nil, 0, ms
+	}
+	for i := range shown {
+		if f := shown[i].F; f >= 1 && f <= len(dr.Fonts) && shown[i].Code > dr.Fonts[f-1].Maxcode {
+			dr.Fonts[f-1].Maxcode = shown[i].Code
+		}
 	}
 	for i := range shown {
 		if k := r.laid[i].span; k >= 1 && k <= len(dr.Spans) {
